@@ -706,6 +706,9 @@ def fixup_slice_indices(
     else:
         stop = min(len_, stop + start_at)
 
+    if not isinstance(start, int) or not isinstance(stop, int):  # e.g. float, reject here before anything is modified instead of failing somewhere in the middle of the operation
+        raise TypeError("slice indices must be integers or 'end'")
+
     if stop < start:
         raise IndexError('start index must precede stop index')
 
